@@ -7,6 +7,7 @@ import (
 
 	"github.com/gobwas/ws"
 
+	"verifharness/drive"
 	"verifharness/gen"
 	"verifharness/mon"
 	"verifharness/ref"
@@ -43,7 +44,10 @@ func frameCut(c *mon.C, shapes []gen.Shape, side ref.Side, offsets []int, flavou
 				case 2:
 					endErr = xport.ErrInjected
 				}
-				ch := xport.NewCutter(stream, p, off, endErr)
+				// the cut transport sits behind one of the kinds of io.Reader an application hands over
+				// (plain, buffered, part-consumed buffered, Read-only): the verdicts do not depend on it
+				wrap := drive.Wraps[(off+fl+c.I)%len(drive.Wraps)]
+				ch := drive.WrapSource(xport.NewCutter(stream, p, off, endErr), wrap)
 				var got []ref.Frame
 				var err error
 				for k := 0; k <= len(frames)+1; k++ {
@@ -84,7 +88,7 @@ func frameCut(c *mon.C, shapes []gen.Shape, side ref.Side, offsets []int, flavou
 					where = "header-end"
 				}
 				det := func() map[string]interface{} {
-					return map[string]interface{}{"frames": gen.ShapesKey(shapes), "side": side, "entry": entry, "plan": p.String(), "cut_offset": off, "stream_len": len(stream), "flavour": []string{"eof", "data+eof", "injected-error"}[fl], "cut_frame": fi, "cut_where": where, "err": fmt.Sprint(err), "frames_returned": len(got)}
+					return map[string]interface{}{"frames": gen.ShapesKey(shapes), "side": side, "entry": entry, "source": wrap, "plan": p.String(), "cut_offset": off, "stream_len": len(stream), "flavour": []string{"eof", "data+eof", "injected-error"}[fl], "cut_frame": fi, "cut_where": where, "err": fmt.Sprint(err), "frames_returned": len(got)}
 				}
 				cls := entry + "/" + where
 				// whole frames before the cut
